@@ -314,7 +314,9 @@ class GenericCheck(Check):
         key, path_segments = path_segments[0], path_segments[1:]
         try:
             test_value = test_value[key]
-        except KeyError:
+        except (KeyError, TypeError):
+            # The key is missing, or the path runs into something that is
+            # not a mapping (a string, a number, None, a nested list)
             return False
         if isinstance(test_value, list):
             for val in test_value:
